@@ -10,7 +10,7 @@ from .. import layout
 PROPERTY = "C20"
 LEVEL = "exploration"
 RULE = (
-    "every live type (structures, the four area tables, frames, response-code name tables) is walked once after "
+    "in fresh interpreters with 6 (thorough 24) different string hash seeds: every live type (structures, the four area tables, frames, response-code name tables) is walked once after "
     "import; one evaluation per (type or table entry, coherence rule) plus one per compared snapshot node; distinct = "
     "distinct (rule, type/entry) pairs; exhaustive over the finite tables; then the allowed set of every constrained primitive type is probed by membership at every interval end point (+-1) of its whole type family in three passes (name order, reverse, shuffled after a decode workload) and the walk is compared with the snapshot a second time"
 )
@@ -28,7 +28,10 @@ PREFIX = {
 
 
 def plan(tier, seed):
-    return [dict(name="tables")]
+    # the tables are built at import time: one fresh interpreter per string hash seed (set / dict-of-set iteration order at
+    # import must not leak into the layout)
+    n = 6 if tier == "quick" else 24
+    return [dict(name=f"tables-hashseed{(int(seed) * 6 + k) % 4096}", hashseed=(int(seed) * 6 + k) % 4096) for k in range(n)]
 
 
 def norm(s):
